@@ -110,7 +110,8 @@ func (m *multiIterator) Next() bool {
 
 	k1, _ := m.front.Peek()
 	k2, _ := m.back.Peek()
-	ret := compareBytes(k1, k2)
+	// both sides have a next element here, so a nil key is the empty key (smallest), not "exhausted"
+	ret := bytes.Compare(k1, k2)
 	switch ret {
 	case 0:
 		m.key, m.value = m.front.Next()
